@@ -294,3 +294,17 @@ def pairing(out: Out, pairs):
         for k, line in held.items():
             leaks.append((k, line, kind, desc))
     return n, leaks
+
+
+def module_constants(program, rel):
+    """Simple module-level constants of ``rel`` (strings, numbers, tuples/sets of them) as abstract values."""
+    consts = {}
+    for st in program.module(rel).body:
+        if isinstance(st, ast.Assign) and len(st.targets) == 1 and isinstance(st.targets[0], ast.Name):
+            v = st.value
+            if isinstance(v, ast.Constant):
+                consts[st.targets[0].id] = Const(v.value)
+            elif isinstance(v, (ast.Tuple, ast.List, ast.Set)) and all(isinstance(e, ast.Constant) for e in v.elts):
+                kind = {"Tuple": "tuple", "List": "list", "Set": "set"}[type(v).__name__]
+                consts[st.targets[0].id] = ListV([Const(e.value) for e in v.elts], kind)
+    return consts
